@@ -185,3 +185,14 @@ Theorem C04_checker_sound : forall c A T,
     ea = own_addr (cfg c) /\ er = role_string (own_type (cfg c)).
 Proof. exact checker_sound. Qed.
 Print Assumptions C04_checker_sound.
+
+(* "... the provider registry confirmed A's stake at that moment": in a session of handshakes on one
+   long-lived service, the k-th handshake enrols a provider only on the registry's answer given during
+   the k-th handshake (one lookup, for A), whatever was answered before. *)
+Theorem C04_stake_at_that_moment : forall c steps k s A,
+  nth_error steps k = Some s ->
+  (exists r, nth_error (session c steps) k = Some r /\ res r = Enrol A type_provider) ->
+  registered (s_oracles s) A = true /\ addr_of_pid (s_oracles s) = POk A /\
+  exists r, nth_error (session c steps) k = Some r /\ lookups r = [A].
+Proof. exact session_stake_at_that_moment. Qed.
+Print Assumptions C04_stake_at_that_moment.
